@@ -571,14 +571,15 @@ class Peer:
             self.proto.negotiated.received(received_open)
             self.proto.negotiated.received(received_open)
 
-            self.proto.connection.msg_size = self.proto.negotiated.msg_size
-
             # if we mirror the ASN, we need to read first and send second
             if not self.neighbor.session.local_as:
                 sent_open = await self._send_open()
                 self.proto.negotiated.sent(sent_open)
                 self.proto.negotiated.sent(sent_open)
                 self.fsm.change(FSM.OPENSENT)
+
+            # both OPENs are known: the message size negotiated for this connection (RFC 8654)
+            self.proto.connection.msg_size = self.proto.negotiated.msg_size
 
             self.proto.validate_open()
             self.fsm.change(FSM.OPENCONFIRM)
